@@ -15,7 +15,7 @@ from hv.engine_harness import Harness, program_lines
 from hv.props.c01 import gen_program
 from hv.props.c02 import gen_future_program
 
-MODES = ["plain", "trace", "evtrace", "ctl", "ctl", "ctl", "reset"]
+MODES = ["plain", "trace", "evtrace", "ctl", "ctl", "ctl", "reset", "reset-src"]
 
 
 def gen_script(rng: random.Random, prog):
@@ -90,7 +90,15 @@ class C04(core.Property):
         prog["mode"] = mode
         if mode == "ctl":
             prog["script"] = gen_script(rng, prog)
-        if mode == "reset":
+        if mode == "reset-src":
+            # load sources / probes are re-primed by reset(); their first ticks tie with pre-run events
+            small = max(prog["times"]) < 10**6
+            prog["sources"] = [{"rate": rng.choice([1e6, 5e5] if small else [1.0, 0.5]), "tgt": rng.randrange(prog["ents"]),
+                                "kind": rng.randint(1, 6), "stop": (rng.choice([3000, 6000]) if small else rng.choice([3 * 10**9, 6 * 10**9])),
+                                "probe": rng.random() < 0.3}
+                               for _ in range(rng.randint(1, 2))]
+            prog["end"] = 20000 if small else 10**10    # a source ticks forever: the run needs a horizon
+        if mode in ("reset", "reset-src"):
             for p in prog["pre"]:
                 p["hook"] = 0
                 p["cancelled"] = False
@@ -104,6 +112,8 @@ class C04(core.Property):
                             for d in prog["defs"]]
             prog.pop("held", None)   # pre-created events held by entities are entity state as well
         prog["family"] = f"{mode}/" + ("auto" if prog["end"] is None else "end")
+        if mode == "reset-src":
+            prog["family"] += " (judge only: load sources are not in the Lean model)"
         return prog
 
     # ------------------------------------------------------------------ implementation
@@ -120,7 +130,10 @@ class C04(core.Property):
             from happysimulator.instrumentation.recorder import InMemoryTraceRecorder
             sim = h.build(trace_recorder=InMemoryTraceRecorder())
             return h.run()
-        sim = h.build()
+        if mode in ("reset-src",) or case.get("sources"):
+            sim = h.build(**self._sources(h, case))
+        else:
+            sim = h.build()
         if mode == "plain":
             return h.run()
         if mode == "evtrace":
@@ -130,7 +143,7 @@ class C04(core.Property):
                 return h.run()
             finally:
                 evmod.disable_event_tracing()
-        if mode == "reset":
+        if mode in ("reset", "reset-src"):
             h.run()
             first = list(h.log)
             sim.control.reset()
@@ -197,16 +210,31 @@ class C04(core.Property):
         out[-1] = out[-1].rsplit(" ", 1)[0] + (" 0" if s.is_running else " 1")
         return states + out
 
+    @staticmethod
+    def _sources(h, case):
+        from happysimulator.load.source import Source
+        srcs, probes = [], []
+        for i, sd in enumerate(case.get("sources", [])):
+            src = Source.constant(rate=sd["rate"], target=h.ents[sd["tgt"]], event_type=f"k{sd['kind']}",
+                                  name=f"src{i}", stop_after=h.Instant(sd["stop"]))
+            (probes if sd.get("probe") else srcs).append(src)
+        return dict(sources=srcs, probes=probes)
+
     def reference(self, case):
         """the same program, uninterrupted and unobserved, on the same implementation"""
         ref = dict(case)
         ref["mode"] = "plain"
         h = Harness(ref)
-        h.build()
+        h.build(**self._sources(h, ref))
         return h.run()
 
     def compare_view(self, case, impl_out):
+        if case["mode"] == "reset-src":
+            return ["judge-only"]
         return impl_out[:impl_out.index("#ref")] if "#ref" in impl_out else impl_out
+
+    def model_postprocess(self, case, out):
+        return ["judge-only"] if case["mode"] == "reset-src" else out
 
     def judge_block(self, case, impl_out):
         if (impl_out and impl_out[0].startswith("IMPL-")) or "#ref" not in impl_out:
